@@ -132,3 +132,91 @@ def _(self, decoder: Obj("Decoder")) -> Tup(Opt(Str), Opt(Val)):
                     not in self.additions_index_to_member, result[0] is None and result[1] is None))
     ensures(implies(nsn_val(decoder.value, decoder.total_number_of_bits - old(decoder.number_of_bits))
                     in self.additions_index_to_member, result[0] is not None))
+
+
+@contract("Type.encode", abstract=True)
+def _(self, data: Val, encoder: Obj("Encoder")):
+    # assumed for component types (each concrete class under contract refines it): only appends bits
+    raises(EncodeError)
+    raises(OverflowError)
+    raises(UnicodeEncodeError)
+    raises(ValueError)
+    assigns(encoder)
+    ensures(encoder.chunks_number_of_bits + encoder.number_of_bits
+            >= old(encoder.chunks_number_of_bits) + old(encoder.number_of_bits))
+
+
+@contract("MembersType.encode_member", props=["C12", "C01", "C05"], for_class="any")
+def _(self, member: Obj("Type"), data: Map('str', Val), encoder: Obj("Encoder"), encode_default: Bool):
+    # X.691 19.5: a component equal to its DEFAULT is not encoded (unless it is an extension addition); absent
+    # OPTIONAL/DEFAULT components add nothing; a missing mandatory component is an encode error; an error inside
+    # the component is located at it, whatever kind of component it is (C12)
+    raises(EncodeError, ensures=[implies(member.name in data, located_at(exc, member))])
+    raises(OverflowError)
+    raises(UnicodeEncodeError)
+    raises(ValueError)
+    assigns(encoder)
+    ensures(member.name in data or member.optional or member.default is not None)
+    ensures(encoder.chunks_number_of_bits + encoder.number_of_bits
+            >= old(encoder.chunks_number_of_bits) + old(encoder.number_of_bits))
+    ensures(implies(member.name not in data,
+                    encoder.number_of_bits == old(encoder.number_of_bits) and encoder.value == old(encoder.value)
+                    and encoder.chunks_number_of_bits == old(encoder.chunks_number_of_bits)))
+    ensures(implies(member.name in data and member.default is not None and not encode_default
+                    and is_dflt(ident(member), data[member.name]),
+                    encoder.number_of_bits == old(encoder.number_of_bits) and encoder.value == old(encoder.value)
+                    and encoder.chunks_number_of_bits == old(encoder.chunks_number_of_bits)))
+
+
+@contract("Encoder.are_all_bits_zero", abstract=True)
+def _(self) -> Bool:
+    # assumed (the chunk list is not tracked): true only if the accumulator holds no 1 bit; with nothing flushed to
+    # chunks it is exactly that
+    ensures(implies(result, self.value == 0))
+    ensures(implies(self.chunks_number_of_bits == 0, result == (self.value == 0)))
+
+
+@contract("Encoder.reset", props=["C05", "C01"])
+def _(self):
+    assigns(self)
+    ensures(self.number_of_bits == 0 and self.value == 0 and self.chunks_number_of_bits == 0)
+
+
+@contract("MembersType.encode_root", props=["C05", "C01", "C12"], for_class="any")
+def _(self, data: Map('str', Val), encoder: Obj("Encoder")):
+    # X.691 19.2/19.3: one preamble bit per OPTIONAL/DEFAULT root component, then the components in order
+    raises(EncodeError)
+    raises(OverflowError)
+    raises(UnicodeEncodeError)
+    raises(ValueError)
+    assigns(encoder)
+    ghost_init(g_pre=0)
+    at_stmt("@loop1", set=dict(g_pre=encoder.chunks_number_of_bits + encoder.number_of_bits))
+    ensures(encoder.chunks_number_of_bits + encoder.number_of_bits
+            >= old(encoder.chunks_number_of_bits) + old(encoder.number_of_bits) + len(self.optionals))
+    loop(0, invariant=[encoder.chunks_number_of_bits + encoder.number_of_bits
+                       == old(encoder.chunks_number_of_bits) + old(encoder.number_of_bits) + _i0,
+                       _i0 <= len(self.optionals)])
+    loop(1, invariant=[encoder.chunks_number_of_bits + encoder.number_of_bits >= g_pre,
+                       g_pre == old(encoder.chunks_number_of_bits) + old(encoder.number_of_bits) + len(self.optionals)])
+
+
+@contract("MembersType.encode_addition_group", props=["C05", "C01"], for_class="any")
+def _(self, data: Map('str', Val), encoder: Obj("Encoder")):
+    # X.691 19.9 / X.680 version brackets: the group is encoded as absent (encoder reset) only when encode_root
+    # produced nothing but an all-zero preamble, i.e. no component of the group is present; in every other case
+    # what encode_root wrote stays untouched (g_* = the encoder just after encode_root)
+    requires(encoder.number_of_bits == 0 and encoder.chunks_number_of_bits == 0 and encoder.value == 0)
+    raises(EncodeError)
+    raises(OverflowError)
+    raises(UnicodeEncodeError)
+    raises(ValueError)
+    assigns(encoder)
+    ghost_init(g_nb=0, g_val=0, g_chunks=0)
+    at_stmt("@if0", set=dict(g_nb=encoder.number_of_bits, g_val=encoder.value, g_chunks=encoder.chunks_number_of_bits))
+    ensures(g_chunks + g_nb >= len(self.optionals))
+    ensures(implies(g_chunks + g_nb != len(self.optionals) or g_val != 0,
+                    encoder.number_of_bits == g_nb and encoder.value == g_val
+                    and encoder.chunks_number_of_bits == g_chunks))
+    ensures((encoder.number_of_bits == g_nb and encoder.value == g_val and encoder.chunks_number_of_bits == g_chunks)
+            or (encoder.number_of_bits == 0 and encoder.value == 0 and encoder.chunks_number_of_bits == 0))
